@@ -261,7 +261,7 @@ pub fn run(args: &Args) -> Report {
             // a well-formed datagram after the sweep point: refused ones must have no other effect
             list.push(D { flow: 42, host: b"ok".to_vec(), port: 7, data: b"after".to_vec() });
             let sc = Scn { name: format!("field sweep host_len={hl} payload_len={pl}"), list, buf: 8, late_reader: false, with_stream: false, cap: 0 };
-            cases.push(Case { label: sc.name.clone(), exec: Box::new(move |r| exec(&sc, r)) });
+            cases.push(Case { try_unbounded: false, max_k: u32::MAX, label: sc.name.clone(), exec: Box::new(move |r| exec(&sc, r)) });
         }
     }
     // ---- bursts relative to the buffer, ordering, interference with a stream
@@ -272,7 +272,7 @@ pub fn run(args: &Args) -> Report {
                     let n = buf + 2;
                     let list = (0..n).map(|i| D { flow: 100 + (i as u32 % 2), host: vec![b'h', i as u8], port: 9, data: vec![i as u8; 1 + i % 3] }).collect();
                     let sc = Scn { name: format!("burst of {n} into buffer {buf} late_reader={late} with_stream={with_stream} cap={cap}"), list, buf, late_reader: late, with_stream, cap };
-                    cases.push(Case { label: sc.name.clone(), exec: Box::new(move |r| exec(&sc, r)) });
+                    cases.push(Case { try_unbounded: false, max_k: u32::MAX, label: sc.name.clone(), exec: Box::new(move |r| exec(&sc, r)) });
                 }
             }
         }
